@@ -1,0 +1,92 @@
+//go:build verif
+
+package option
+
+// BOUNDED stand-ins (never counted as proved) for the loop-based traversals of Option — property C02:
+// FoldM / Traverse / TraverseSeq / TraverseSlice / Traverse_ / Sequence on literal inputs of length 0..3
+// with symbolic elements and callbacks, compared (value AND callback trace: which calls, in which order,
+// with which arguments) with the explicit left-to-right short-circuit program.  Every failure position of
+// a three-element input is one branch of that program.
+
+//@ import "github.com/csgura/fp/iterator"
+//
+//@ ghost
+//@ func specFoldM3[A, B any](a, b, c A, z B, f func(B, A) fp.Option[B]) fp.Option[B] {
+//@ 	t1 := f(z, a)
+//@ 	if !t1.IsDefined() {
+//@ 		return t1
+//@ 	}
+//@ 	t2 := f(t1.Get(), b)
+//@ 	if !t2.IsDefined() {
+//@ 		return t2
+//@ 	}
+//@ 	return f(t2.Get(), c)
+//@ }
+//@ func specTraverse3[A, R any](a, b, c A, fn func(A) fp.Option[R]) fp.Option[fp.Seq[R]] {
+//@ 	r1 := fn(a)
+//@ 	if !r1.IsDefined() {
+//@ 		return fp.None[fp.Seq[R]]()
+//@ 	}
+//@ 	r2 := fn(b)
+//@ 	if !r2.IsDefined() {
+//@ 		return fp.None[fp.Seq[R]]()
+//@ 	}
+//@ 	r3 := fn(c)
+//@ 	if !r3.IsDefined() {
+//@ 		return fp.None[fp.Seq[R]]()
+//@ 	}
+//@ 	return fp.Some(fp.Seq[R]{r1.Get(), r2.Get(), r3.Get()})
+//@ }
+//@ func specSequence3[A any](oa, ob, oc fp.Option[A]) fp.Option[fp.Seq[A]] {
+//@ 	if !oa.IsDefined() {
+//@ 		return fp.None[fp.Seq[A]]()
+//@ 	}
+//@ 	if !ob.IsDefined() {
+//@ 		return fp.None[fp.Seq[A]]()
+//@ 	}
+//@ 	if !oc.IsDefined() {
+//@ 		return fp.None[fp.Seq[A]]()
+//@ 	}
+//@ 	return fp.Some(fp.Seq[A]{oa.Get(), ob.Get(), oc.Get()})
+//@ }
+//@ func seqOfIter[R any](t fp.Option[fp.Iterator[R]]) fp.Option[fp.Seq[R]] {
+//@ 	if !t.IsDefined() {
+//@ 		return fp.None[fp.Seq[R]]()
+//@ 	}
+//@ 	return fp.Some(fp.Seq[R](t.Get().ToSeq()))
+//@ }
+//@ func seqOfSlice[R any](t fp.Option[[]R]) fp.Option[fp.Seq[R]] {
+//@ 	if !t.IsDefined() {
+//@ 		return fp.None[fp.Seq[R]]()
+//@ 	}
+//@ 	return fp.Some(fp.Seq[R](t.Get()))
+//@ }
+//@ end
+//
+//@ lemma optionFoldM3[A, B any](a, b, c A, z B, f func(B, A) fp.Option[B])
+//@   prop C02
+//@   option unroll
+//@   ensures EqT(FoldM(fp.IteratorOfSeq(fp.Seq[A]{a, b, c}), z, f), specFoldM3(a, b, c, z, f))
+//@   tag firstFailureWinsLaterNotCalled
+//@   ensures EqT(FoldM(fp.IteratorOfSeq(fp.Seq[A]{}), z, f), fp.Some(z))
+//@   tag empty
+//
+//@ lemma optionTraverse3[A, R any](a, b, c A, fn func(A) fp.Option[R])
+//@   prop C02
+//@   option unroll
+//@   ensures EqT(TraverseSeq(fp.Seq[A]{a, b, c}, fn), specTraverse3(a, b, c, fn))
+//@   tag seq
+//@   ensures EqT(seqOfIter(Traverse(fp.IteratorOfSeq(fp.Seq[A]{a, b, c}), fn)), specTraverse3(a, b, c, fn))
+//@   tag iterator
+//@   ensures EqT(seqOfSlice(TraverseSlice([]A{a, b, c}, fn)), specTraverse3(a, b, c, fn))
+//@   tag slice
+//@   ensures EqT(seqOfSlice(FlatMapTraverseSlice(fp.Some([]A{a, b, c}), fn)), specTraverse3(a, b, c, fn))
+//@   tag flatMapTraverse
+//
+//@ lemma optionSequence3[A any](oa, ob, oc fp.Option[A])
+//@   prop C02
+//@   option unroll
+//@   ensures Eq(seqOfSlice(Sequence([]fp.Option[A]{oa, ob, oc})), specSequence3(oa, ob, oc))
+//@   tag slice
+//@   ensures Eq(seqOfIter(SequenceIterator(iterator.Of(oa, ob, oc))), specSequence3(oa, ob, oc))
+//@   tag iterator
